@@ -169,6 +169,8 @@ class SymExec:
         self.results = []
         self.max_paths = max_paths
         self.loops = {}
+        self.atom_facts = None      # optional: (atom, truth) -> [Aff >= 0]
+        self.loop_facts = None      # optional: (path, fn, header bb, local, symbol) -> [Aff >= 0]
 
     def run(self, fn, args, heap):
         p = Path()
@@ -281,7 +283,10 @@ class SymExec:
                     for l in li[1]:
                         v = locs[l]
                         if isinstance(v, Aff):
-                            locs[l] = sym(p.fresh(f'loop_{l}'))
+                            nm = p.fresh(f'loop_{l}')
+                            if self.loop_facts:
+                                p.facts += self.loop_facts(p, fn, bb, l, sym(nm), v, locs)
+                            locs[l] = sym(nm)
                         elif v is not None and not (isinstance(v, tuple) and v and v[0] in ('ref', 'buf', 'lit', 'arg', 'item', 'fn', 'unit')):
                             locs[l] = ('havoc', p.fresh(f'loop_{l}'), body['locals'][l])
                     p.trace.append(f'loop@{fn.rsplit("::", 1)[-1]}:bb{bb} (havoc)')
@@ -352,6 +357,8 @@ class SymExec:
                         q.frames[-1] = (f2[0], b, 0, f2[3], f2[4], f2[5])
                         q.assume.append((v[1], bool(truth)))
                         q.facts += cmp_facts(v[1], bool(truth))
+                        if self.atom_facts:
+                            q.facts += self.atom_facts(q, v[1], bool(truth))
                         self.work.append(q)
                     return
                 if isinstance(v, Aff):
@@ -396,6 +403,8 @@ class SymExec:
                     if tr:
                         p.trace.append(tr)
                     p.assume += asm
+                    for (a_, t_) in asm:
+                        p.facts += cmp_facts(a_, t_)
                     p.frames[-1] = (fn, t['target'], 0, locs, dest, ret_bb)
                     continue
                 for (tr, val, asm) in outs:
@@ -405,6 +414,8 @@ class SymExec:
                     if tr:
                         q.trace.append(tr)
                     q.assume += asm
+                    for (a_, t_) in asm:
+                        q.facts += cmp_facts(a_, t_)
                     q.frames[-1] = (f2[0], t['target'], 0, f2[3], f2[4], f2[5])
                     self.work.append(q)
                 return
@@ -473,8 +484,9 @@ class SymExec:
                         return Aff({}, int(op == 'Lt'))
                     return ('cond', ('cmp', op, a, b))
                 if op in ('Eq', 'Ne'):
-                    if isinstance(a, tuple) and isinstance(b, tuple) and a and b and a[0] == 'cond' and isinstance(b, Aff):
-                        pass
+                    if isinstance(a, tuple) and a and a[0] == 'byteat' and isinstance(b, Aff) and b.is_const():
+                        c = ('cond', ('byte_at', a[1], b.c))
+                        return c if op == 'Eq' else ('cond', ('not', c[1]))
                     return ('cond', ('cmpval', op, _h(a), _h(b)))
                 raise Unsupported(f'comparison {op} of {str(a)[:40]} , {str(b)[:40]}')
             if op in ('BitAnd', 'BitOr'):
